@@ -491,7 +491,7 @@ func run() int {
 	return exit
 }
 
-var scheduleDependent = map[string]bool{"C04": true, "C05": true, "C10": true, "C11": true, "C12": true, "C19": true}
+var scheduleDependent = map[string]bool{"C04": true, "C05": true, "C06": true, "C07": true, "C10": true, "C11": true, "C12": true, "C19": true}
 
 // traceCheckable: obligations that can be decided on the real strace log of the operation.
 func traceCheckable(id string) bool {
